@@ -132,6 +132,17 @@ func (c *common) begin(w http.ResponseWriter, r *http.Request) (*Request, string
 		q.Res = "fault:malformed"
 		w.Write([]byte("<<<this is neither XML nor JSON"))
 		return q, kind, false
+	case "truncated":
+		// status line and headers arrive, the body is cut off
+		q.Res = "fault:truncated"
+		if hj, ok := w.(http.Hijacker); ok {
+			if conn, buf, err := hj.Hijack(); err == nil {
+				buf.WriteString("HTTP/1.1 200 OK\r\nContent-Type: application/xml\r\nContent-Length: 4096\r\n\r\n<response status=\"success\"><result>")
+				buf.Flush()
+				conn.Close()
+			}
+		}
+		return q, kind, false
 	case "close":
 		q.Res = "fault:close"
 		if hj, ok := w.(http.Hijacker); ok {
